@@ -1470,7 +1470,17 @@ def _getattr(eng, st, args, kwargs, line):
         sch = eng.reg.schemas.get(sch.base) if sch.base else None
     rest = st
     for m in cands:
-        s1 = eng.assume(rest, name.t == z3.StringVal(m), precise=True)
+        # The candidate name is a constant, so str.lower of each of its suffixes is known exactly
+        # (computed here): these ground instances of the library function decide conditions such
+        # as `('_' + x == m) and x.lower() in (...)`.  They are used for the feasibility test only;
+        # the state explored further is the one without them.
+        probe = rest.copy()
+        for j in range(len(m)):
+            probe.pc.append(py_lower(z3.StringVal(m[j:])) == z3.StringVal(m[j:].lower()))
+        if eng.assume(probe, name.t == z3.StringVal(m), precise=True) is None:
+            s1 = None
+        else:
+            s1 = eng.assume(rest, name.t == z3.StringVal(m), precise=True)
         if s1 is not None:
             yield from eng.getattr(s1, o, m, line)
         rest = eng.assume(rest, name.t != z3.StringVal(m))
